@@ -269,6 +269,12 @@ def generate(tier):
     # ordinary root with the same program shape must be rejected (twin of the family: shows the hole is the root type)
     ord_src = prog(SHAPE_ITEMS, "let flag = Rc::new(Cell::new(false));\nlet mut out: Option<Gc<'static, P>> = None;\nlet arena = Arena::<Rootable![Gc<'_, P>]>::new(|mc| { let keep = Gc::new(mc, P(flag.clone())); out = Some(keep); keep });\n")
     ps.append(Probe("implied-static/ordinary_root_control", ord_src, "reject", group="implied-static"))
+    # an arena whose root is `&'static Gc<'gc, T>` can be built (known finding) but NOT collected: the collection methods
+    # need `&'static Gc<'gc, T>: Collect<'gc>` for every 'gc, which the `T: 'static` bound on `Collect for &'static T` refuses
+    coll_src = prog(SHAPE_ITEMS, "let flag = Rc::new(Cell::new(false));\nlet mut arena = Arena::<Rootable![&'static Gc<'_, P>]>::new(|mc| { let keep = Gc::new(mc, P(flag.clone())); Box::leak(Box::new(keep)) });\narena.finish_cycle();\n")
+    ps.append(Probe("implied-static/static_ref_gc/collecting_is_rejected", coll_src, "reject", group="implied-static"))
+    coll2 = prog(SHAPE_ITEMS, "let flag = Rc::new(Cell::new(false));\nlet mut arena = Arena::<Rootable![(u8, &'static Gc<'_, P>)]>::new(|mc| { let keep = Gc::new(mc, P(flag.clone())); (0, &*Box::leak(Box::new(keep))) });\nlet _ = arena.mark_debt();\n")
+    ps.append(Probe("implied-static/static_ref_gc/collecting_tuple_is_rejected", coll2, "reject", group="implied-static"))
     return {
         "probes": ps,
         "rule": "grammar: branded thing {Gc, fresh Gc, GcWeak, &'gc T, &Mutation, &Finalization, DynamicRootSet, &Write, &Cell from unlock, &Root, Ref, RefMut, nested container} x escape route {return, return inside a closure / boxed closure / async block / iterator / Option<Box>, outer variable, outer Vec, outer RefCell, outer Rc<RefCell>, thread_local, static OnceLock, T: 'static bound, Box<dyn Any>, scoped thread by move / by share, channel} x entry point {new, try_new, mutate, mutate_root, map_root, try_map_root, finalize, rootless_mutate}; 13-15 cross-arena uses under nested mutate and nested finalize, root swap, foreign builder completion; 8 re-entrant collection calls from mutate and finalize; shrink/grow variance by value and behind & for 18 pointer/context/builder types; Send and Sync for 18 types incl. arenas with plain-data roots; root-type shapes implying 'gc: 'static x 4 entry points x 2 routes. Every negative has a positive twin; non-trivial = negative probes",
